@@ -579,6 +579,7 @@ class Gen:
         out = []
         if not model_ok:
             return out
+        self.pid = max([st[1] for m in proj["mods"] for st in m["body"] if st[0] in ("P", "K")] + [0])
         spots = []
         for i, m in enumerate(proj["mods"]):
             for st in m["body"]:
@@ -727,8 +728,10 @@ def triangle_lines(proj, ob):
         m = re.fullmatch(r"P(\d+)=(.*)", e)
         if m:
             res[int(m.group(1))] = m.group(2)
-    mid = next(m for m in proj["mods"] if m["name"] == "mid")
-    w = next(s for s in mid["body"] if s[0] == "W")
+    mid = next((m for m in proj["mods"] if m["name"] == "mid"), None)
+    w = next((s for s in mid["body"] if s[0] == "W"), None) if mid else None
+    if w is None or not any(m["name"] == "main" for m in proj["mods"]):
+        return []           # (a shrunk triangle may have lost its shape)
     pfx, vis = w[2], w[3]
     vs = "A" if vis[0] == "A" else f"{vis[0]}:{ids(vis[1])}:{ids(vis[2])}"
     main = next(m for m in proj["mods"] if m["name"] == "main")
@@ -980,13 +983,14 @@ def check_disk(ck, pool):
     return failing
 
 
-def shrink(ck, pool, f):
-    """greedy statement / module removal while the case keeps failing without a known tag"""
+def shrink(ck, pool, f, same_tags=False):
+    """greedy statement / module removal while the case keeps failing without a known tag
+    (`same_tags`: while it keeps failing with the same tags — used to minimise witnesses by hand)"""
     proj = f["proj"]
     if proj is None:
         return f
     best = f
-    for _ in range(6):
+    for _ in range(40):
         cands = []
         p = best["proj"]
         for i, m in enumerate(p["mods"]):
@@ -1002,7 +1006,8 @@ def shrink(ck, pool, f):
             break
         sub = Check("C12", "quick", 0)
         sub.disagreements = []
-        fl = [x for x in judge(sub, evaluate(sub, pool, cands[:400], "quick"), count=False) if not x["tags"]]
+        fl = [x for x in judge(sub, evaluate(sub, pool, cands[:400], "quick"), count=False)
+              if (x["tags"] == f["tags"] if same_tags else not x["tags"])]
         if not fl:
             break
         fl.sort(key=lambda x: x["size"])
